@@ -18,7 +18,7 @@ RULE = (
     "composition, massnumber is additive over Species(atom).massnumber and equals the values pinned by the repo's "
     "tests for H, D, He, C, N, O, the name after replacement equals the re-spelling. Negative half: one injected "
     "foreign character must raise. Names whose intended tokenisation is straddled by a longer configured symbol are "
-    "discarded (counted). Non-trivial = a two-letter symbol adjacent to a one-letter symbol that is its prefix or "
+    "discarded (counted). User lists are installed in one go or as a history of set/add/remove calls with parses in between (same final lists). Non-trivial = a two-letter symbol adjacent to a one-letter symbol that is its prefix or "
     "suffix letter, a count >= 10, a replacement, a label, a grain, or an injected character."
 )
 ASSUMPTIONS = [
